@@ -222,6 +222,62 @@ theorem ds_param_update_local_newton [Field α] [LinearOrder α] [IsStrictOrdere
     show paddedRoot N s c (ridgeOf s a) a = paddedRoot s s c (ridgeOf s a) a
     rw [paddedRoot_eq c hp hs, paddedRoot_eq c hp (le_refl s)]) pre post pre' post' leaf).2
 
+
+/-! ### the eigh root without any assumption on which eigendecomposition the kernel returns -/
+
+/-- **eigh_root_independent_of_kernel.**  Any two eigen-solvers whose answers meet the `eigh` specification for the matrix
+they are given (`DsEighSpec`: orthonormal eigenvectors, `U diag(e) Uᵀ` = the masked, regularised matrix, and the `n - s`
+eigenvalues the code zeroes by `e *= flip(ix)` are the zero eigenvalues of the padding — what ascending order gives for a
+PSD statistic with ridge `> 0`) produce the same root, for every spectrum (repeated and zero eigenvalues included) and
+every `e ↦ max(e, ridge)^(-1/p)` obeying the code's zero-eigenvalue rule `invE 0 = 0`.  The root is a function of the
+matrix (`spectral_fn_unique`, the argument of C15's `rootOfEigh_unique` for an arbitrary function of the spectrum). -/
+theorem eigh_root_independent_of_kernel [Field α] [LinearOrder α] [IsStrictOrderedRing α]
+    (k1 k2 : Kernel α) (invE : α → α) (h0 : invE 0 = 0) (n s : Nat) (ridge : α) (a : A2 α)
+    (h1 : KernelMeetsSpec k1 n s ridge a) (h2 : KernelMeetsSpec k2 n s ridge a) :
+    eighRootA k1 invE n s ridge a = eighRootA k2 invE n s ridge a :=
+  eighRootA_kernel_indep k1 k2 invE h0 n s ridge a h1 h2
+
+/-- **root_padding_invariant_eigh_unconditional.**  No `KernelPadOK`: it suffices that the kernel's answers meet the `eigh`
+specification on the two matrices it is actually given (the padded and the unpadded regularised statistic).  Whatever
+decomposition of `blockdiag(R, 0)` it returns, the root is `blockdiag(root R, 0)`, and pad / root / cut is the root of the
+statistic. -/
+theorem root_padding_invariant_eigh_unconditional [Field α] [LinearOrder α] [IsStrictOrderedRing α]
+    (kernel : Kernel α) (invE : α → α) (h0 : invE 0 = 0) {s N : Nat} (hs : s ≤ N) (ridge : α) (a : A2 α)
+    (hN : KernelMeetsSpec kernel N s ridge (padSq s N a)) (hS : KernelMeetsSpec kernel s s ridge a) :
+    paddedEighRoot kernel invE N s ridge a = eighRootA kernel invE s s ridge a ∧
+    eighRootA kernel invE N s ridge (padSq s N a) = embed N (eighRootA kernel invE s s ridge a) := by
+  have h := eighRootA_padSq_of_spec kernel invE h0 hs ridge a hN hS
+  refine ⟨?_, h⟩
+  unfold paddedEighRoot
+  rw [h, eighRootA_def]
+  exact cutA_embed_tabM _ hs
+
+/-- **ds_param_update_local_eigh_unconditional.**  With `eigh=True` a leaf receives the same roots in any two trees,
+provided only that the eigen-solver meets its specification on the matrices it is given (for every statistic, padded to
+any `max_size` and unpadded). -/
+theorem ds_param_update_local_eigh_unconditional [Field α] [LinearOrder α] [IsStrictOrderedRing α]
+    (kernel : Kernel α) (invE : α → α) (h0 : invE 0 = 0) (ridgeOf : Nat → A2 α → α)
+    (hspec : ∀ (N s : Nat) (a : A2 α), s ≤ N → KernelMeetsSpec kernel N s (ridgeOf s a) (padSq s N a))
+    (hspec0 : ∀ (s : Nat) (a : A2 α), KernelMeetsSpec kernel s s (ridgeOf s a) a)
+    (pre post pre' post' : List (List (Stat α))) (leaf : List (Stat α)) :
+    (treeRootsG (fun N s a => paddedEighRoot kernel invE N s (ridgeOf s a) a) (pre ++ leaf :: post))[pre.length]?
+      = some (leaf.map fun st => eighRootA kernel invE st.size st.size (ridgeOf st.size st.dat) st.dat) ∧
+    (treeRootsG (fun N s a => paddedEighRoot kernel invE N s (ridgeOf s a) a) (pre ++ leaf :: post))[pre.length]?
+      = (treeRootsG (fun N s a => paddedEighRoot kernel invE N s (ridgeOf s a) a) (pre' ++ leaf :: post'))[pre'.length]? := by
+  have hroot : ∀ N s a, s ≤ N → paddedEighRoot kernel invE N s (ridgeOf s a) a = eighRootA kernel invE s s (ridgeOf s a) a :=
+    fun N s a hs => (root_padding_invariant_eigh_unconditional kernel invE h0 hs _ a (hspec N s a hs) (hspec0 s a)).1
+  have hinv : ∀ N s a, s ≤ N → (fun N s a => paddedEighRoot kernel invE N s (ridgeOf s a) a) N s a
+      = (fun N s a => paddedEighRoot kernel invE N s (ridgeOf s a) a) s s a := fun N s a hs => by
+    show paddedEighRoot kernel invE N s (ridgeOf s a) a = paddedEighRoot kernel invE s s (ridgeOf s a) a
+    rw [hroot N s a hs, hroot s s a (le_refl s)]
+  obtain ⟨h1, h2⟩ := ds_param_update_local _ hinv pre post pre' post' leaf
+  refine ⟨?_, h2⟩
+  rw [h1]
+  congr 1
+  apply List.map_congr_left
+  intro st _
+  exact hroot _ _ _ (le_refl _)
+
 /-! ### the discrete slot plan (`ds_plan`): which statistic sits where -/
 
 /-- **slot count** = Σ over blocks of the number of preconditioned axes = #blocks × #preconditioned axes, for every shape,
@@ -284,6 +340,13 @@ example (ridgeOf : Nat → A2 ℚ → ℚ) : ∀ N s a, s ≤ N →
 /-- an eigen-solver satisfying `KernelPadOK` exists (the exact solver for diagonal matrices), so the eigh theorems are not
 vacuous -/
 example (g : Nat → ℚ) : KernelPadOK (diagKernel g) := diagKernel_padOK g
+
+/-- the hypothesis `KernelMeetsSpec` of the unconditional eigh theorems is satisfiable for every size, padded or not: for
+a zero statistic the matrix handed to `eigh` is `diag(ridge, …, ridge, 0, …, 0)` and the exact diagonal solver meets the
+specification (in particular its first `n - s` eigenvalues are the zeros of the padding) -/
+example (n s : Nat) (hs : s ≤ n) (ridge : ℚ) :
+    KernelMeetsSpec (diagKernel fun i => if i < s then ridge else 0) n s ridge (#[] : A2 ℚ) :=
+  diagKernel_meetsSpec n s hs ridge
 
 example : (dsSlotsP .input [7, 3] 4).length = 2 ∧ (dsSlotsP .all [7, 3] 4).length = 4 := by decide
 
